@@ -161,6 +161,24 @@ def run(db, tier):
 
     rule_float(db, rep)
 
+    # ---------------- R-INT-LIT: every integer the formatter can print is in the range the literal parser accepts
+    rep.rule("R-INT-LIT", "the integer-literal parser reads all three radices as full 32-bit unsigned numbers (the formatter prints unsigned decimals, "
+                          "hex and binary bit patterns up to 0xFFFFFFFF, and the sign separately)")
+    pl = db.fn("parse::lalrparser_util::parse_u32_literal")
+    rep.fn(pl)
+    parses = []
+    for g in [pl] + list(db.children.get(pl.id, [])):
+        for _, t in g.calls():
+            c = t.get("f", "")
+            if c.endswith("<impl str>::parse"):
+                parses.append(("parse", (t.get("ga") or ["?"])[0], t["ln"]))
+            m = re.match(r"^core::num::<impl (\w+)>::from_str_radix$", c)
+            if m:
+                parses.append(("from_str_radix", m.group(1), t["ln"]))
+    bad = [p_ for p_ in parses if p_[1] != "u32"]
+    rep.check(len(parses) >= 3 and not bad, "R-INT-LIT", "parse_u32_literal|all radices parse as u32", pl.loc, "%d conversions, all to u32" % len(parses),
+              "parse_u32_literal converts with %s: literals from 2147483648 to 4294967295 (printed by the formatter for unsigned arguments and for i32::MIN) are rejected" % bad)
+
     # ---------------- R-LIST-SEP
     gpath = os.path.join(getattr(db, "repo", "/repo"), "src", "parse", "lalrparser.lalrpop")
     text = open(gpath).read()
